@@ -47,6 +47,31 @@ def _normalize_title_quotes(title: str) -> str:
     return f'"{escaped}"'
 
 
+def _format_link_destination(dest: str) -> str:
+    """
+    A link destination as it has to be written: bare where that is possible, in pointy
+    brackets where it is not (it is empty, contains white space, or its parentheses do
+    not balance), because a bare destination ends at the first space or at an unmatched
+    `)` and the link would no longer be a link.
+    """
+    depth = 0
+    balanced = True
+    for char in dest:
+        if char == "(":
+            depth += 1
+        elif char == ")":
+            depth -= 1
+            if depth < 0:
+                balanced = False
+                break
+    needs_brackets = (
+        dest == "" or depth != 0 or not balanced or any(c.isspace() for c in dest) or dest.startswith("<")
+    )
+    if not needs_brackets:
+        return dest
+    return "<" + dest.replace("<", "\\<").replace(">", "\\>") + ">"
+
+
 def _min_fence_length(code_content: str, fence_char: str = "`") -> int:
     """
     Calculate the minimum fence length needed for code content.
@@ -683,7 +708,7 @@ class MarkdownNormalizer(Renderer):
                 return f"[{label}]"
             return f"[{link_text}][{label}]"
         title = f" {link_title}" if link_title is not None else ""
-        return f"[{link_text}]({element.dest}{title})"
+        return f"[{link_text}]({_format_link_destination(element.dest)}{title})"
 
     def render_auto_link(self, element: inline.AutoLink) -> str:
         return f"<{_link_text_as_written(element)}>"
@@ -691,7 +716,9 @@ class MarkdownNormalizer(Renderer):
     def render_image(self, element: inline.Image) -> str:
         template = "![{}]({}{})"
         title = f" {_normalize_title_quotes(element.title)}" if element.title else ""
-        return template.format(self.render_children(element), element.dest, title)
+        return template.format(
+            self.render_children(element), _format_link_destination(element.dest), title
+        )
 
     def render_literal(self, element: inline.Literal) -> str:
         """
